@@ -81,6 +81,8 @@ def one_iteration(ctx: Ctx, run: FuncInfo, include_unreachable: bool, changed: b
         "self.eq": lambda n, e, en: not changed,
         "queue.pop": lambda n, e, en: bb,
         "queue.popleft": lambda n, e, en: bb,
+        "queue.popitem": lambda n, e, en: (bb, None),
+        "dict.fromkeys": lambda n, e, en: e.ev(n.args[0], en),
         "queue.update": h_update,
         "queue.extend": h_update,
         "queue.add": h_add,
@@ -141,9 +143,25 @@ def run(ctx: Ctx) -> None:
                        "cache_when_unchanged": repr(stores0.get(cache))},
                       "the cached block value is not refreshed before dependants are re-queued, or blocks are re-queued although nothing changed "
                       "(non-termination / stale reads)")
+        # the returned map must hold the value computed in the *last* visit of each block: if it is not
+        # the map that change detection compares, it has to be refreshed on every visit, changed or not
+        ret = [dotted(x.value) for x in walk_no_nested(r.node) if isinstance(x, ast.Return) and x.value is not None]
+        eq_maps = {dotted(a.value) for cl in calls_in(r.node) if call_name(cl) == "eq" for a in cl.args if isinstance(a, ast.Subscript)}
+        if len(ret) == 1 and ret[0]:
+            try:
+                _, _, st_unchanged, _ = one_iteration(ctx, r, True, changed=False)
+                fresh = st_unchanged.get(f"{ret[0]}[bb]")
+                ok = (ret[0] in eq_maps) or (fresh is not None and fresh.name in ("joined", "applied"))
+                ctx.check(ok, "R-C09.5", f"{r.qualname}#returned-map-is-current", r.where,
+                          {"returns": ret[0], "change_detection_compares": sorted(eq_maps),
+                           "entry_after_an_unchanged_visit": repr(fresh)},
+                          "the returned block values can be stale: a block whose input changed but whose cached output did not keeps the "
+                          "previous (or the optimistic initial) input value in the result")
+            except Unsupported as e:
+                ctx.undecided("R-C09.5", f"{r.qualname}#returned-map-is-current", r.where, str(e))
         # all blocks queued initially
         q = [n for n in walk_no_nested(r.node) if isinstance(n, ast.Assign) and any(isinstance(t, ast.Name) and t.id == "queue" for t in n.targets)]
-        ok = len(q) == 1 and isinstance(q[0].value, ast.Call) and call_name(q[0].value) in ("set", "list", "deque") and [dotted(a) for a in q[0].value.args] == ["bbs"]
+        ok = len(q) == 1 and isinstance(q[0].value, ast.Call) and call_name(q[0].value) in ("set", "list", "deque", "fromkeys") and [dotted(a) for a in q[0].value.args] == ["bbs"]
         ctx.check(ok, "R-C09.5", f"{r.qualname}#all-blocks-queued-initially", r.where, {"queue_init": ast.unparse(q[0].value) if q else None},
                   "some block is never visited, so it keeps the initial (extremal) value")
 
